@@ -111,3 +111,9 @@ package hashbidimap
 //@   ensures [C12] atomic: result != nil ==> (forall k like keyof(m.forwardMap.m) :: (Fwd(m, k) <==> old(Fwd(m, k))) && (Fwd(m, k) ==> FwdVal(m, k) == old(FwdVal(m, k))))
 //@   ensures [C11 C12] loaded-only: jobj_kind(bytes, keyof(m.forwardMap.m), valof(m.forwardMap.m)) == 3 ==> (forall k like keyof(m.forwardMap.m) :: Fwd(m, k) ==> jobj_has(bytes, k, valof(m.forwardMap.m)) && FwdVal(m, k) == jobj_val(bytes, k, valof(m.forwardMap.m)))
 //@   ensures [C12] null: jobj_kind(bytes, keyof(m.forwardMap.m), valof(m.forwardMap.m)) == 2 ==> hashmap.Card(m.forwardMap) == 0
+
+//@ -- String: starts with the container's name; reads only (C15, C18)
+//@ func Map.String
+//@   requires Inv(m)
+//@   modifies nothing
+//@   ensures [C15 C17 C18] hasPrefix(result, "HashBidiMap")
